@@ -48,6 +48,10 @@ class Wrapc(util.WrapperMixin):
         self.config = config
         self.log = config.log
         self._init_splicer(splicers)
+        # Per library, do not share with a library wrapped earlier.
+        self.capsule_code = {}
+        self.capsule_order = []
+        self.capsule_include = {}
         self.comment = "//"
         self.cont = ""
         self.linelen = newlibrary.options.C_line_length
